@@ -136,6 +136,52 @@ M('c17-new-public-op-unguarded', 'C17', 'R1', WS,
     async def _send(self, msg: AsgiSendMsg) -> None:
 """)
 
+# accept/close: the promised state only on the normal continuation of the send (seeded s2-c17-1 and variants)
+M('c17-close-state-in-finally', 'C17', 'R1', WS,
+  """        await self._asgi_send(response)
+
+        self._state = _WebSocketState.CLOSED
+        self._close_code = code
+""", """        try:
+            await self._asgi_send(response)
+        finally:
+            self._state = _WebSocketState.CLOSED
+            self._close_code = code
+""")
+M('c17-close-state-in-catch-all', 'C17', 'R1', WS,
+  """        await self._asgi_send(response)
+
+        self._state = _WebSocketState.CLOSED
+        self._close_code = code
+""", """        try:
+            await self._asgi_send(response)
+        except Exception:
+            self._state = _WebSocketState.CLOSED
+            self._close_code = code
+            raise
+
+        self._state = _WebSocketState.CLOSED
+        self._close_code = code
+""")
+M('c17-accept-state-in-finally', 'C17', 'R1', WS,
+  """        await self._send(event)
+        self._state = _WebSocketState.ACCEPTED
+""", """        try:
+            await self._send(event)
+        finally:
+            self._state = _WebSocketState.ACCEPTED
+""")
+M('c17-accept-state-on-send-error', 'C17', 'R1', WS,
+  """        await self._send(event)
+        self._state = _WebSocketState.ACCEPTED
+""", """        try:
+            await self._send(event)
+        except ValueError:
+            self._state = _WebSocketState.ACCEPTED
+            raise
+        self._state = _WebSocketState.ACCEPTED
+""")
+
 # ------------------------------------------------------------------ R2
 M('c17-handler-uses-raw-send', 'C17', 'R2', APP,
   """                error,
@@ -356,3 +402,34 @@ M('c17-receive-media-wrong-error', 'C17', 'R5', WS,
             )
 """, """            raise errors.WebSocketDisconnected()
 """)
+
+# ------------------------------------------------------------------ R6 (pump context shared with C18; the flag clauses of C18 R3 also fire)
+_FLAG_BLOCK = """            if received_event['type'] == EventType.WS_DISCONNECT:
+                self.client_disconnected = True
+                self.client_disconnected_code = received_event.get(
+                    'code', WSCloseCode.NORMAL
+                )
+"""
+M2('c17-disconnect-flag-after-capacity-wait', 'C17', 'R6', [
+    {'file': WS, 'old': "            received_event = await self._asgi_receive()\n" + _FLAG_BLOCK,
+     'new': "            received_event = await self._asgi_receive()\n"},
+    {'file': WS, 'old': "            self._messages.append(received_event)\n",
+     'new': "            self._messages.append(received_event)\n" + _FLAG_BLOCK},
+], also=('C18',))
+M2('c17-disconnect-flag-after-notify', 'C17', 'R6', [
+    {'file': WS, 'old': "            received_event = await self._asgi_receive()\n" + _FLAG_BLOCK,
+     'new': "            received_event = await self._asgi_receive()\n"},
+    {'file': WS, 'old': """                self._pop_message_waiter.set_result(None)
+                self._pop_message_waiter = None
+""", 'new': """                self._pop_message_waiter.set_result(None)
+                self._pop_message_waiter = None
+
+""" + _FLAG_BLOCK},
+], also=('C18',))
+M('c17-disconnect-flag-only-with-room', 'C17', 'R6', WS,
+  "            if received_event['type'] == EventType.WS_DISCONNECT:\n                self.client_disconnected = True",
+  "            if received_event['type'] == EventType.WS_DISCONNECT and len(self._messages) < self._max_queue:\n"
+  "                self.client_disconnected = True", also=('C18',))
+M('c17-disconnect-flag-after-yield', 'C17', 'R6', WS,
+  "            received_event = await self._asgi_receive()\n            if received_event['type']",
+  "            received_event = await self._asgi_receive()\n            await asyncio.sleep(0)\n            if received_event['type']")
